@@ -377,11 +377,17 @@ fn build_input_with(ver: u16, fmt: Format, asz: u8, forest: &Forest, layout: Opt
                                 5 => (0x3010, 0x3000),
                                 _ => (max - 1, max),
                             };
-                            let list = w::LocationList(vec![w::Location::StartEnd {
-                                begin: w::Address::Constant(b),
-                                end: w::Address::Constant(e2),
-                                data: ex,
-                            }]);
+                            // every other live location-list carrier of a DWARF 5 unit is a DW_LLE_default_location
+                            // entry (no address range): the filter must scan its expression like any other entry's
+                            let list = if s.car == 3 && ver >= 5 && k % 2 == 1 {
+                                w::LocationList(vec![w::Location::DefaultLocation { data: ex }])
+                            } else {
+                                w::LocationList(vec![w::Location::StartEnd {
+                                    begin: w::Address::Constant(b),
+                                    end: w::Address::Constant(e2),
+                                    data: ex,
+                                }])
+                            };
                             let lid = unit.locations.add(list);
                             unit.get_mut(eid).set(name, w::AttributeValue::LocationListRef(lid));
                         }
